@@ -13,6 +13,10 @@ pub enum Case {
     Class { class: String, len: usize },
     /// message of `len` zero bytes with one bit set
     OneBit { len: usize, bit: usize },
+    /// the message is passed as `&buf[off..off + len]` (start address not 4/8-byte aligned for off = 1..7)
+    Offset { class: String, len: usize, off: usize },
+    /// seeded message whose last byte is forced to `last`
+    LastByte { len: usize, last: u8 },
     /// hash sequence (indices into the purity alphabet); the last call is the one judged
     History { seq: Vec<u16> },
 }
@@ -28,6 +32,14 @@ fn message(ctx: &Ctx, c: &Case) -> Vec<u8> {
             m
         }
         Case::History { seq } => purity_msg(ctx, *seq.last().unwrap() as usize),
+        Case::Offset { class, len, .. } => content(class, *len, ctx.seed),
+        Case::LastByte { len, last } => {
+            let mut m = content("seed", *len, ctx.seed);
+            if let Some(b) = m.last_mut() {
+                *b = *last;
+            }
+            m
+        }
     }
 }
 
@@ -62,12 +74,22 @@ fn eval(ctx: &Ctx, c: &Case) {
         }
     }
     ctx.call();
-    let got = guard(|| gm_sm3::sm3_hash(&m));
+    let got = if let Case::Offset { off, .. } = c {
+        // 16-byte aligned backing store, message at a chosen offset inside it
+        let mut backing: Vec<u128> = vec![0; (m.len() + off + 31) / 16];
+        let bytes: &mut [u8] = unsafe { std::slice::from_raw_parts_mut(backing.as_mut_ptr() as *mut u8, backing.len() * 16) };
+        bytes[*off..*off + m.len()].copy_from_slice(&m);
+        let view: &[u8] = &bytes[*off..*off + m.len()];
+        guard(|| gm_sm3::sm3_hash(view))
+    } else {
+        guard(|| gm_sm3::sm3_hash(&m))
+    };
     let want = sm3::sm3(&m);
     ctx.trace();
     let site = "gm_sm3::sm3_hash";
     let kind = match c {
         Case::History { .. } => "purity",
+        Case::Offset { .. } => "digest-of-unaligned-slice",
         _ => "digest",
     };
     match got {
@@ -113,7 +135,7 @@ pub fn run(ctx: &Arc<Ctx>) {
         Err(e) => ctx.machinery_error(format!("missing corpus/sm3.json: {}", e)),
     }
     let lmax = ctx.tier.pick(1100usize, 4096);
-    ctx.set_rule("every length 0..=Lmax x 5 content classes; every single-bit-set message of 55/56/63/64/192 bytes; k*64+{-9,-8,-1,0,1} for k=1..=40; one message of 2^29+3 bytes; all call sequences of length <=3 over 6 messages (purity). A case is distinct by (kind, length, content/bit). Oracle: independent streaming SM3.");
+    ctx.set_rule("every length 0..=Lmax x 5 content classes; every single-bit-set message of 55/56/63/64/192 bytes; k*64+{-9,-8,-1,0,1} for k=1..=40; one message of 2^29+3 bytes; messages passed as slices at byte offsets 1..7 of an aligned buffer; every value of the last byte at 8 lengths; all call sequences of length <=3 over 6 messages (purity). A case is distinct by (kind, length, content/bit). Oracle: independent streaming SM3.");
     ctx.note_bound(format!("Lmax={}", lmax));
     let mut cases: Vec<Case> = Vec::new();
     for len in 0..=lmax {
@@ -136,6 +158,16 @@ pub fn run(ctx: &Arc<Ctx>) {
                 cases.push(Case::Class { class: "seed".into(), len });
                 cases.push(Case::Class { class: "mod251".into(), len });
             }
+        }
+    }
+    for off in 1..8usize {
+        for len in (0..=200usize).chain([255, 256, 257, 511, 512, 1000]) {
+            cases.push(Case::Offset { class: "seed".into(), len, off });
+        }
+    }
+    for len in [1usize, 3, 55, 56, 64, 65, 119, 128] {
+        for last in 0..=255u8 {
+            cases.push(Case::LastByte { len, last });
         }
     }
     ctx.sample(serde_json::to_value(&cases[7]).unwrap());
